@@ -62,5 +62,43 @@ func fixedCases() []Case {
 			{K: "listitem", S: "i"},
 			{K: "img", Img: im("png", 6, 3, 34, "d.png"), Size: sz("nil", 0, 0)},
 		}},
+		// sources that outlive one use: one engine renders, the images at the paths are replaced (other format, pixel size,
+		// bytes), the engine renders the same template again and then a newly loaded one, with one TemplateData whose
+		// entries partly stay; the same paths are also used by AddImageFromFile and the cell entry points in between
+		{Steps: []Step{
+			{K: "imgfile", Img: im("png", 12, 4, 40, "x.png"), Size: sz("nil", 0, 0), Slot: 1},
+			{K: "table", N: 1, M: 2},
+			{K: "cellimgf", Img: im("gif", 5, 15, 41, "x.gif"), Size: sz("wkeep", 20, 0), Sel: []int{0, 0, 0}, Slot: 2},
+			{K: "phpara", Texts: []string{"", ""}, Phs: []string{"a"}},
+			{K: "phpara", Texts: []string{"", ""}, Phs: []string{"b"}},
+			{K: "phpara", Texts: []string{"", ""}, Phs: []string{"c"}},
+			{K: "cellph", Texts: []string{"", ""}, Phs: []string{"d"}, Sel: []int{0, 0, 1}, B: true},
+			{K: "render", Eng: 1, TD: 1, Data: []TplImg{
+				{Name: "a", Img: *im("png", 40, 20, 42, "chart.png"), Via: "file", Size: Size{Mode: "nil"}, Slot: 1},
+				{Name: "b", Img: *im("jpeg", 8, 32, 43, "p.jpg"), Via: "details-file", Size: Size{Mode: "wkeep", W: 50}, Slot: 2, Alt: "alt"},
+				{Name: "c", Img: *im("gif", 9, 3, 44, "q.gif"), Via: "file", Size: Size{Mode: "hkeep", H: 12}, Slot: 3},
+				{Name: "d", Img: *im("png", 7, 7, 45, "r.png"), Via: "file", Size: Size{Mode: "none"}, Slot: 3},
+			}},
+			{K: "save"},
+			// same template, same engine, same TemplateData: a and d are set again, both naming the first path (both pictures show
+			// what d's call wrote there last); b and c stay as the first render set them (c's path holds what d's first entry wrote)
+			{K: "render", Eng: 2, TD: 1, Data: []TplImg{
+				{Name: "a", Img: *im("gif", 10, 30, 46, "chart.png"), Via: "file", Size: Size{Mode: "nil"}, Slot: 1},
+				{Name: "d", Img: *im("jpeg", 3, 17, 47, "r.png"), Via: "details-file", Size: Size{Mode: "wkeep", W: 50}, Slot: 1},
+			}},
+			{K: "cellimg", Img: im("png", 31, 2, 48, "s.png"), Size: sz("hkeep", 0, 9), Sel: []int{0, 0, 0}, B: true, Slot: 2},
+			{K: "imgfile", Img: im("jpeg", 2, 11, 49, "t.jpg"), Size: sz("wkeep", 25, 0), Slot: 1},
+			{K: "reopen"},
+			{K: "phpara", Texts: []string{"", ""}, Phs: []string{"b"}},
+			{K: "phpara", Texts: []string{"see: ", ""}, Phs: []string{"a"}},
+			// a newly loaded document on the same engine; b still is the entry of the first render, its file is the cell call's now
+			{K: "render", Eng: 1, TD: 1, Data: []TplImg{
+				{Name: "a", Img: *im("png", 21, 13, 50, "chart.png"), Via: "file", Size: Size{Mode: "hkeep", H: 30}, Slot: 1},
+			}},
+			{K: "render", Eng: 2, Data: []TplImg{
+				{Name: "a", Img: *im("png", 13, 21, 51, "chart.png"), Via: "file", Size: Size{Mode: "none"}, Slot: 1},
+				{Name: "b", Img: *im("gif", 64, 1, 52, "u.gif"), Via: "file", Size: Size{Mode: "nil"}, Slot: 1},
+			}},
+		}},
 	}
 }
